@@ -472,8 +472,17 @@ pub fn work(env: &Env, ctx: &Ctx, w: usize, nw: usize, plan: &Plan) -> Value {
     }
 
     // 1. enumerated storage faults on every corpus grammar <= 5 KB
+    let default_timeout = env.timeout_ms.get();
     for g in ctx.corpus.iter().filter(|g| g.bytes.len() <= 5 * 1024) {
         for spec in specs_basic() {
+            // Calibrate the wall-clock backstop on the undamaged file: 200x
+            // its compile time, at least 5 s.  (The only real-clock read that
+            // feeds a verdict; it can only turn "slow" into "hang" for a
+            // compile that is 200x slower than the same file undamaged.)
+            let t0 = std::time::Instant::now();
+            let _ = run_case(env, &Case { grammar: g.clone(), damage: "none".into(), spec: spec.clone(), world: World::reference(), actions: None });
+            let ms = t0.elapsed().as_millis() as i32;
+            env.timeout_ms.set((ms.saturating_mul(200)).clamp(5_000, default_timeout));
             let mut jobs: Vec<(String, String, Vec<u8>)> = vec![];
             enumerate_storage(&g.bytes, plan.thorough, &mut |k, d, b| {
                 counter += 1;
@@ -494,6 +503,7 @@ pub fn work(env: &Env, ctx: &Ctx, w: usize, nw: usize, plan: &Plan) -> Value {
         }
     }
 
+    env.timeout_ms.set(default_timeout);
     // 2. seeded storage faults (all grammars, including the large one), over
     //    the configuration product
     let product = specs_product();
@@ -688,12 +698,30 @@ pub fn work(env: &Env, ctx: &Ctx, w: usize, nw: usize, plan: &Plan) -> Value {
 
 pub fn still_fails(env: &Env, ctx: &Ctx, case: &Case, key: &str) -> bool {
     let o = run_case(env, case);
-    matches!(judge(ctx, case, &o), Some((_, k, _)) if k == key)
+    match judge(ctx, case, &o) {
+        // the key of a hang names the content, which shrinking changes: the
+        // class is what must persist
+        Some((class, k, _)) => {
+            if key.starts_with("hang|") {
+                class == "hang"
+            } else {
+                k == key
+            }
+        }
+        None => false,
+    }
 }
 
 /// Greedy shrink of the damaged file while the same call site panics.
 pub fn minimise(env: &Env, ctx: &Ctx, case: &Case, key: &str) -> Case {
     let mut cur = case.clone();
+    let hang = key.starts_with("hang|");
+    let saved_timeout = env.timeout_ms.get();
+    if hang {
+        // every step that still hangs costs a full backstop: shrink with a
+        // short one (the shrunk grammars compile in milliseconds) and few steps
+        env.timeout_ms.set(saved_timeout.min(5_000));
+    }
     // settings towards default
     let d = if cur.spec.glr { Spec::glr_default() } else { Spec::lr_default() };
     if cur.spec != d {
@@ -714,7 +742,7 @@ pub fn minimise(env: &Env, ctx: &Ctx, case: &Case, key: &str) -> Case {
         return cur;
     }
     // drop lines
-    let mut budget = 400;
+    let mut budget = if hang { 40 } else { 400 };
     loop {
         let ls: Vec<Vec<u8>> = lines_of(&cur.grammar.bytes).into_iter().map(|l| l.to_vec()).collect();
         let mut changed = false;
@@ -740,7 +768,7 @@ pub fn minimise(env: &Env, ctx: &Ctx, case: &Case, key: &str) -> Case {
     }
     // drop "clauses": pieces between separators of the grammar language, so
     // that the result stays readable and close to the original cause
-    let mut budget = 600;
+    let mut budget = if hang { 40 } else { 600 };
     for seps in [&b";"[..], &b"|"[..], &b" \n"[..]] {
         let mut i = 0;
         loop {
@@ -773,5 +801,6 @@ pub fn minimise(env: &Env, ctx: &Ctx, case: &Case, key: &str) -> Case {
         }
     }
     cur.damage = format!("minimised from: {}", case.damage);
+    env.timeout_ms.set(saved_timeout);
     cur
 }
